@@ -223,6 +223,10 @@ inline std::string snapStr(const Snap& s) {
 inline double tolQ(Fam f) { return (f == F_EXPO || f == F_TEXP || f == F_UNIF) ? 1e-12 : 1e-5; }
 
 struct AuditOpt { size_t kreq; bool med; short scheme; Fam fam; };
+// c.fail plus a per-family break-down of the failing clause in the outcome histogram (the signature itself stays family-free)
+inline void failF(vf::Case& c, const std::string& sig, const std::string& fam, const std::string& detail) {
+  c.fail(sig, detail); c.tag("viol[" + sig + "]@" + fam);
+}
 
 // every clause of the statement that concerns ONE state of a discretised continuous family
 inline void auditPartition(const ADD& d, const AuditOpt& o, vf::Case& c, const std::string& ctx) {
@@ -230,27 +234,31 @@ inline void auditPartition(const ADD& d, const AuditOpt& o, vf::Case& c, const s
   std::string fam = FAMNAME[o.fam];
   auto where = [&]() { return ctx + " -> " + snapStr(s); };
   size_t k = s.k;
+  // class of the reported domain by its mass under the parent (a label for the structural clauses, not an excuse: every class is judged)
+  double M0 = d.pProb(s.ub) - d.pProb(s.lb);
+  std::string dc = !(M0 > 0) ? "|zero-mass-domain" : (M0 < 1e-4 ? "|tail-domain(mass<1e-4)" : "");
+  auto fail = [&](const std::string& sig, const std::string& det) { failF(c, sig, fam, det); };
   // --- class count
   if (k != o.kreq || s.v.size() != o.kreq || s.p.size() != o.kreq) {
-    c.fail("count|classes-differ-from-requested", where() + " | requested " + str(o.kreq) + ", getNumberOfCategories=" + str(k) + ", class list has " + str(s.v.size()));
+    fail("count|classes-differ-from-requested", where() + " | requested " + str(o.kreq) + ", getNumberOfCategories=" + str(k) + ", class list has " + str(s.v.size()));
     return;
   }
-  if (s.med != o.med) c.fail("count|median-flag-differs-from-requested", where());
+  if (s.med != o.med) fail("count|median-flag-differs-from-requested", where());
   // --- probabilities
   double sum = 0; bool pok = true;
   for (size_t i = 0; i < k; ++i) { if (!(s.p[i] >= 0) || !std::isfinite(s.p[i])) pok = false; sum += s.p[i]; }
-  if (!pok) c.fail("prob|negative-or-not-a-number", where());
-  else if (!(std::fabs(sum - 1) <= 1e-12 * (double)k)) c.fail("prob|sum-differs-from-one", where() + " | sum=" + num(sum));
+  if (!pok) fail("prob|negative-or-not-a-number" + dc, where());
+  else if (!(std::fabs(sum - 1) <= 1e-12 * (double)k)) fail("prob|sum-differs-from-one" + dc, where() + " | sum=" + num(sum));
   // --- class values
   bool vok = true;
   for (size_t i = 0; i < k; ++i) if (!std::isfinite(s.v[i])) vok = false;
   for (size_t i = 0; i + 1 < k; ++i) if (!(s.v[i] < s.v[i + 1])) vok = false;
-  if (!vok) c.fail("values|not-strictly-increasing-or-not-finite", where());
+  if (!vok) fail("values|not-strictly-increasing-or-not-finite" + dc, where());
   // --- bounds
   bool bok = (s.b.size() == k + 1);
-  if (!bok) c.fail("bounds|getBounds-size", where());
+  if (!bok) fail("bounds|getBounds-size", where());
   else {
-    if (s.b[0] != s.lb || s.b[k] != s.ub) { c.fail("bounds|getBounds-ends-differ-from-domain", where()); bok = false; }
+    if (s.b[0] != s.lb || s.b[k] != s.ub) { fail("bounds|getBounds-ends-differ-from-domain", where()); bok = false; }
     bool mono = true, inside = true, fin = true;
     for (size_t i = 1; i < k; ++i) {
       if (std::isnan(s.b[i])) fin = false;
@@ -258,15 +266,15 @@ inline void auditPartition(const ADD& d, const AuditOpt& o, vf::Case& c, const s
       if (!(s.b[i] >= s.lb && s.b[i] <= s.ub)) inside = false;
     }
     if (k >= 1 && !(s.b[k] >= s.b[k - 1])) mono = false;
-    if (!fin) { c.fail("bounds|not-a-number", where()); bok = false; }
+    if (!fin) { fail("bounds|not-a-number" + dc, where()); bok = false; }
     else {
-      if (!inside) { c.fail("bounds|interior-bound-outside-domain", where()); bok = false; }
-      if (!mono) { c.fail("bounds|decreasing", where()); bok = false; }
+      if (!inside) { fail("bounds|interior-bound-outside-domain" + dc, where()); bok = false; }
+      if (!mono) { fail("bounds|decreasing" + dc, where()); bok = false; }
     }
     for (size_t i = 0; i + 1 < k; ++i) {
       double g = 0; bool threw = false;
       try { g = d.getBound(i); } catch (Exception&) { threw = true; }
-      if (threw || g != s.b[i + 1]) { c.fail("bounds|getBound-differs-from-getBounds", where()); break; }
+      if (threw || g != s.b[i + 1]) { fail("bounds|getBound-differs-from-getBounds", where()); break; }
     }
   }
   // --- each value inside its own class interval, up to the resolution the object declares for class values: the boundary adjustment
@@ -275,7 +283,7 @@ inline void auditPartition(const ADD& d, const AuditOpt& o, vf::Case& c, const s
     double tv = (double)(k + 1) * s.prec;
     for (size_t i = 0; i < k; ++i)
       if (!(s.v[i] >= s.b[i] - tv && s.v[i] <= s.b[i + 1] + tv)) {
-        c.fail(std::string("values|outside-own-class-interval|") + (s.med ? "median" : "mean"), where() + " | class " + str(i) + " value " + num(s.v[i]) + " not in [" + num(s.b[i]) + "," + num(s.b[i + 1]) + "]");
+        fail(std::string("values|outside-own-class-interval|") + (s.med ? "median" : "mean") + dc, where() + " | class " + str(i) + " value " + num(s.v[i]) + " not in [" + num(s.b[i]) + "," + num(s.b[i + 1]) + "]");
         break;
       }
   }
@@ -296,12 +304,12 @@ inline void auditPartition(const ADD& d, const AuditOpt& o, vf::Case& c, const s
     for (size_t i = 0; i < k; ++i) {
       double want = (F[i + 1] - F[i]) / M;
       if (!(std::fabs(s.p[i] - want) <= tolP)) {
-        c.fail("mass|class-probability-differs-from-parent-mass", where() + " | class " + str(i) + ": p=" + num(s.p[i]) + " parent mass/domain mass=" + num(want) + " (domain mass " + num(M) + ", tolerance " + num(tolP) + ")");
+        fail("mass|class-probability-differs-from-parent-mass", where() + " | class " + str(i) + ": p=" + num(s.p[i]) + " parent mass/domain mass=" + num(want) + " (domain mass " + num(M) + ", tolerance " + num(tolP) + ")");
         break;
       }
     }
   }
-  if (s.scheme == 1 && !equalP) c.fail("mass|unequal-probabilities-in-equal-probability-scheme", where());
+  if (s.scheme == 1 && !equalP) fail("mass|unequal-probabilities-in-equal-probability-scheme", where());
   // --- mean-valued classes reproduce the parent's mean over the domain
   if (!s.med && eqprobScheme && vok) {
     double El = d.Expectation(s.lb), Eu = d.Expectation(s.ub);
@@ -312,7 +320,7 @@ inline void auditPartition(const ADD& d, const AuditOpt& o, vf::Case& c, const s
     // (cancellation in the differences), the value adjustments of at most (k+1) precision(), and 1e-9 relative slack
     double tolM = 1e-9 * S + (double)(k + 1) * s.prec + 64 * EPS * (double)k * Emax / M;
     if (!(std::fabs(got - want) <= tolM))
-      c.fail("mean|discrete-mean-differs-from-parent-mean-over-domain", where() + " | sum p_i v_i=" + num(got) + " parent (E(ub)-E(lb))/mass=" + num(want) + " tolerance " + num(tolM));
+      fail("mean|discrete-mean-differs-from-parent-mean-over-domain", where() + " | sum p_i v_i=" + num(got) + " parent (E(ub)-E(lb))/mass=" + num(want) + " tolerance " + num(tolM));
     else c.tag("mean-checked");
   }
 }
@@ -398,7 +406,7 @@ inline void auditParent(const ADD& d, Fam f, vf::Case& c, const std::string& ctx
   double lb = d.getLowerBound(), ub = d.getUpperBound();
   double Fl = d.pProb(lb), Fu = d.pProb(ub), M = Fu - Fl;
   std::string fam = FAMNAME[f];
-  if (!(Fl >= -1e-15 && Fu <= 1 + 1e-12)) { c.fail("parent|pProb-outside-[0,1]", ctx + " | pProb(" + num(lb) + ")=" + num(Fl) + " pProb(" + num(ub) + ")=" + num(Fu)); return; }
+  if (!(Fl >= -1e-15 && Fu <= 1 + 1e-12)) { failF(c, "parent|pProb-outside-[0,1]", fam, ctx + " | pProb(" + num(lb) + ")=" + num(Fl) + " pProb(" + num(ub) + ")=" + num(Fu)); return; }
   if (!(M > 0)) { c.tag("domain-mass-zero"); return; }
   double tq = tolQ(f);
   if (2 * tq / M >= 1.0 / 256) { c.tag("domain-mass-below-quantile-resolution"); return; }
@@ -412,11 +420,11 @@ inline void auditParent(const ADD& d, Fam f, vf::Case& c, const std::string& ctx
     if (!(x[j] >= lb && x[j] <= ub)) {
       // a quantile can leave the domain by its own inaccuracy only: allow the distance that corresponds to tq in probability
       double Fx = d.pProb(x[j]);
-      if (!(std::isfinite(x[j]) && std::fabs(Fx - u[j]) <= tq)) { c.fail("parent|qProb-leaves-the-domain", ctx + " | qProb(" + num(u[j]) + ")=" + num(x[j]) + " domain [" + num(lb) + "," + num(ub) + "]"); return; }
+      if (!(std::isfinite(x[j]) && std::fabs(Fx - u[j]) <= tq)) { failF(c, "parent|qProb-leaves-the-domain", fam, ctx + " | qProb(" + num(u[j]) + ")=" + num(x[j]) + " domain [" + num(lb) + "," + num(ub) + "]"); return; }
     }
-    if (!(x[j] >= x[j - 1]) && j > 1) { c.fail("parent|qProb-not-monotone", ctx + " | qProb(" + num(u[j - 1]) + ")=" + num(x[j - 1]) + " > qProb(" + num(u[j]) + ")=" + num(x[j])); return; }
+    if (!(x[j] >= x[j - 1]) && j > 1) { failF(c, "parent|qProb-not-monotone", fam, ctx + " | qProb(" + num(u[j - 1]) + ")=" + num(x[j - 1]) + " > qProb(" + num(u[j]) + ")=" + num(x[j])); return; }
     double Fx = d.pProb(x[j]);
-    if (!(std::fabs(Fx - u[j]) <= tq)) { c.fail("parent|pProb(qProb(u))-differs-from-u", ctx + " | u=" + num(u[j]) + " qProb=" + num(x[j]) + " pProb(qProb)=" + num(Fx)); return; }
+    if (!(std::fabs(Fx - u[j]) <= tq)) { failF(c, "parent|pProb(qProb(u))-differs-from-u", fam, ctx + " | u=" + num(u[j]) + " qProb=" + num(x[j]) + " pProb(qProb)=" + num(Fx)); return; }
   }
   // second grid: linear in x between the 1/128 and 127/128 quantiles (interleaved with the first by sorting)
   std::vector<double> g(x.begin() + 1, x.end() - 1);
@@ -430,14 +438,14 @@ inline void auditParent(const ADD& d, Fam f, vf::Case& c, const std::string& ctx
   double aF = (f == F_EXPO || f == F_TEXP || f == F_UNIF) ? 1e-13 : 4e-8;
   for (size_t j = 0; j + 1 < g.size(); ++j) {
     double a = g[j], b = g[j + 1];
-    if (!(Fg[j + 1] >= Fg[j] - 2 * aF) || !(Fg[j] >= -aF && Fg[j + 1] <= 1 + aF)) { c.fail("parent|pProb-not-monotone-or-outside-[0,1]", ctx + " | pProb(" + num(a) + ")=" + num(Fg[j]) + " pProb(" + num(b) + ")=" + num(Fg[j + 1])); return; }
+    if (!(Fg[j + 1] >= Fg[j] - 2 * aF) || !(Fg[j] >= -aF && Fg[j + 1] <= 1 + aF)) { failF(c, "parent|pProb-not-monotone-or-outside-[0,1]", fam, ctx + " | pProb(" + num(a) + ")=" + num(Fg[j]) + " pProb(" + num(b) + ")=" + num(Fg[j + 1])); return; }
     if (!std::isfinite(a) || !std::isfinite(b) || std::fabs(a) > 1e22 || std::fabs(b) > 1e22) continue;   // the artificial +-1.7e23 ends: no mass there
     // derivative relation dE = x dF in integrated form: the increment of the partial expectation over [a,b] lies between a dF and b dF
     double dF = Fg[j + 1] - Fg[j], dE = Eg[j + 1] - Eg[j];
     double lo = std::min(a * dF, b * dF), hi = std::max(a * dF, b * dF);
     double tol = (std::fabs(a) + std::fabs(b) + 1) * 4 * aF + 16 * EPS * Emax + 1e-9 * std::fabs(dE);
     if (!(dE >= lo - tol && dE <= hi + tol)) {
-      c.fail("parent|expectation-increment-outside-[a*dF,b*dF]", ctx + " | on [" + num(a) + "," + num(b) + "]: dF=" + num(dF) + " dE=" + num(dE) + " must lie in [" + num(lo) + "," + num(hi) + "] (tolerance " + num(tol) + ")");
+      failF(c, "parent|expectation-increment-outside-[a*dF,b*dF]", fam, ctx + " | on [" + num(a) + "," + num(b) + "]: dF=" + num(dF) + " dE=" + num(dE) + " must lie in [" + num(lo) + "," + num(hi) + "] (tolerance " + num(tol) + ")");
       return;
     }
   }
